@@ -1,6 +1,7 @@
 import ServiceModel.Proofs.Reachable
 import ServiceModel.Proofs.Finished
 import ServiceModel.Proofs.Restart
+import ServiceModel.Proofs.MonitorSound2
 /-!
 # C16 — Finished batches and contexts leave nothing behind
 -/
@@ -71,5 +72,11 @@ theorem no_orphans_across_restarts (hc : CfgOK cfg p) {s : State} (hr : Reachabl
       (r ∈ s.activeI ∧ ∃ q x, Map.get s.reqs r = some q ∧ Map.get s.ctxs r.ctx = some x ∧ svc = x.svc ∧ pv = q.prov ∧ e = q.expH)) :=
   let h := (reachableR_invAll hc hr).inv.x
   ⟨h.reqCtx, h.respReq, h.activeReq, h.activeMirror⟩
+
+/-- The executable monitor `requests` (no orphan request, response or marker; the two pending-request indexes agree),
+    evaluated by the check on every state decoded from the implementation's trace, is implied by the invariants on every
+    chain with any number of restarts. -/
+theorem orphan_monitor_implied (hc : CfgOK cfg p) {s : State} (hr : ReachableR cfg p h0 t0 s) :
+    Mon.requests s = [] := (scheduling_monitors_quiet_on_chains_with_restarts hc hr).2
 
 end SM.C16
